@@ -43,7 +43,11 @@ class StableChaser(Chaser):
         if l in self._memo:
             return self._memo[l]
         r = super().local(l, depth)
-        if r[0] not in ("param", "local"):
+        defs = self.body.defs(l)
+        # results of calls stay readable: they are keyed by their call site and every fact about them is killed
+        # when the call re-executes or one of the variables it read is re-assigned
+        is_addr = len(defs) == 1 and defs[0][0] == "stmt" and defs[0][3][0] in ("ref", "raw")   # &x aliases x, no snapshot
+        if r[0] not in ("param", "local") and not (len(defs) == 1 and defs[0][0] == "call") and not is_addr:
             for x in walk(r):
                 if x[0] == "local" and x[1] != l:
                     r = ("local", l, self.body.name_of(l))
@@ -71,13 +75,40 @@ class VFact:
         return False
 
 
+# pure accessors: `p.get_public_key()` reads `p.public_key`
+ACCESSORS = {
+    "saito_core::core::consensus::peers::peer::Peer::get_public_key": ("saito_core::core::consensus::peers::peer::Peer", "public_key"),
+}
+
+
 def vkey(lz, e):
     x = e
     while x[0] in ("ref", "deref"):
         x = x[1]
+    if x[0] == "call" and x[1] in ACCESSORS and x[2]:
+        adt, f = ACCESSORS[x[1]]
+        recv = x[2][0]
+        while recv[0] in ("ref", "deref"):
+            recv = recv[1]
+        x = ("field", ("deref", recv), adt, f)
+    elif x[0] == "field" and x[1][0] != "deref" and x[1][0] in ("param", "local"):
+        x = ("field", ("deref", x[1]), x[2], x[3])
     o = lz.opaque(x)
     (k, _), = o.t.items()
     return k, o.deps
+
+
+def variant_of_assignment(body, ch, lz, st):
+    """`x.f = Some(..)` / `= None` / `= Ok(..)`: the field is known to hold that variant afterwards"""
+    e = ch.rvalue(st[2], 0)
+    tag = None
+    if e[0] == "agg" and e[1][0] == "adt" and e[1][1] in ("std::option::Option", "std::result::Result"):
+        tag = e[1][2]
+    if tag is None:
+        return None
+    pe = ch.place(st[1])
+    k, deps = vkey(lz, pe)
+    return VFact(k, tag, set(deps) - {("L", st[1][0])})
 
 
 class DecoderAnalysis:
@@ -219,6 +250,10 @@ class DecoderAnalysis:
                     if st[0] != "=" or st[1][1]:
                         if st[0] == "=" and st[1][1]:
                             facts = kill(facts, ("L", st[1][0]))
+                            vf = variant_of_assignment(body, ch, lz, st)
+                            if vf is not None:
+                                facts = {k: f for k, f in facts.items() if not (isinstance(f, VFact) and f.k == vf.k)}
+                                facts[vf.key()] = vf
                         continue
                     x = st[1][0]
                     facts = kill(facts, ("L", x))
